@@ -37,10 +37,14 @@ def join_parts(parts):
         value += v
     return value
 
+FMT_TEXTS = ["aaaa aaa aa aaa aa aaa aa aaa aa aaa aa aaa", "bb bbb bb bbb bbbb bb bbb bb bbb bbbb bb", "c cc ccc cccc ccccc cccccc ccccccc cc"]
+FMT_FONT = {"maxLineLength": 60, "numLines": 2, "cursorOverlapWidth": 5, "widths": {"default": 5, " ": 3}}
+
 class TopGen:
     """Whole files: scripts with inline texts / moves, texts, movements, marts, mapscripts, raw."""
-    def __init__(self, rnd, tier="quick", clash=False, porywrap=False, plain=False):
+    def __init__(self, rnd, tier="quick", clash=False, porywrap=False, plain=False, fmt=False, tconsts=False):
         self.clash = clash; self.porywrap = porywrap; self.expect_clash = None; self.plain = plain; self.srcs = []
+        self.fmt = fmt; self.fmtcmds = {}; self.tconsts = tconsts; self.used_consts = False
         self.r = rnd; self.n = 0; self.textcmds = []   # (owner, cmdname, content, typ) in source order
         self.movecmds = []                               # (owner, cmdname, steps)
         self.items = []                                  # (kind, name, scope, payload)
@@ -54,7 +58,16 @@ class TopGen:
             k = st[0]
             if k == "cmd" and r.random() < 0.35:
                 name = self.fresh("tc")
-                if r.random() < 0.7:
+                if self.fmt and r.random() < 0.3:
+                    # format() of one of a few long texts under varying box parameters: the hoisted
+                    # text is the text laid out for exactly these parameters
+                    text = r.choice(FMT_TEXTS); nl = r.choice([None, None, 1, 2, 3]); ov = r.choice([None, None, 0, 12]); mx = r.choice([None, None, 40, 0x28, 75])
+                    params = "".join([", numLines=%d" % nl if nl is not None else "", ", cursorOverlapWidth=%d" % ov if ov is not None else "",
+                                      ", maxLineLength=%s" % r.choice([str(mx), hex(mx)]) if mx is not None else ""])
+                    body[i] = ("cmd", '%s(format("%s"%s))' % (name, text, params), None)
+                    self.textcmds.append((owner, name, None, ""))
+                    self.fmtcmds[name] = (text, mx if mx else FMT_FONT["maxLineLength"], ov if ov else FMT_FONT["cursorOverlapWidth"], nl if nl else FMT_FONT["numLines"])
+                elif r.random() < 0.7:
                     pool = ["shared text", "other", "x"]
                     content = r.choice(pool) if r.random() < 0.5 else gen_content(r)
                     if r.random() < 0.15 and content: content += "\nsecond line"
@@ -159,11 +172,17 @@ class TopGen:
                     else:
                         rows = []; s += "  %s [\n" % typ
                         for j in range(r.randint(0, 3)):
+                            vsrc, vexp, csrc, cexp = "VAR_T", "VAR_T", str(j), str(j)
+                            if self.tconsts and r.random() < 0.5:
+                                # constants inside (multi-token) table variables and values
+                                vsrc, vexp = r.choice([("KT_VAR", "VAR_T5"), ("KT_VAR + 1", "VAR_T5 + 1"), ("VAR_T", "VAR_T")])
+                                csrc, cexp = r.choice([("KT_BASE + %d" % j, "10 + %d" % j), ("KT_BASE", "10"), ("( KT_BASE + 2 ) * %d" % j, "( 10 + 2 ) * %d" % j)])
+                                self.used_consts = True
                             if r.random() < 0.5:
-                                rows.append(("plain", "VAR_T", str(j), "Ext_row%d" % j)); s += "    VAR_T, %d: Ext_row%d\n" % (j, j)
+                                rows.append(("plain", vexp, cexp, "Ext_row%d" % j)); s += "    %s, %s: Ext_row%d\n" % (vsrc, csrc, j)
                             else:
                                 owner = "%s_%s_%d" % (name, typ, j); _, _, body, labels = self.script(name=owner)
-                                rows.append(("inline", "VAR_T", str(j), owner, body, labels)); s += "    VAR_T, %d {\n%s    }\n" % (j, p_block(body, 3))
+                                rows.append(("inline", vexp, cexp, owner, body, labels)); s += "    %s, %s {\n%s    }\n" % (vsrc, csrc, p_block(body, 3))
                         s += "  ]\n"; ents.append(("table", typ, "%s_%s" % (name, typ), rows))
                 self.items.append(("mapscripts", name, scope, ents)); src.append(s + "}\n")
             else:
@@ -184,15 +203,19 @@ class TopGen:
                     steps = list(payload) if r.random() < 0.4 else ["walk_up"]
                     stmt = "movement %s {\n  %s\n}\n" % (lab, " ".join(steps))
                 src.insert(r.randrange(len(src) + 1), stmt); self.expect_clash = lab
+        if self.used_consts: src.insert(0, "const KT_VAR = VAR_T5\nconst KT_BASE = 10\n")
         self.srcs = src
         return "\n".join(src)
     def generated_labels(self):
         """The hoisted labels this file must produce: label -> (content, type) / label -> steps."""
         counts = {}; assigned = {}; tl = {}
-        for owner, name, content, typ in self.textcmds:
-            if (content, typ) in assigned: continue
+        fowners = {o for o, _, c, _ in self.textcmds if c is None}     # owners of format() texts: their numbering
+        for owner, name, content, typ in self.textcmds:                 # depends on the formatted output, left out here
+            if content is None or (content, typ) in assigned: continue
+            assigned[(content, typ)] = True
+            if owner in fowners: continue
             lab = "%s_Text_%d" % (owner, counts.get(owner, 0)); counts[owner] = counts.get(owner, 0) + 1
-            assigned[(content, typ)] = lab; tl[lab] = (content, typ)
+            tl[lab] = (content, typ)
         mcounts = {}; massigned = {}; ml = {}
         for owner, name, steps in self.movecmds:
             if tuple(steps) in massigned: continue
@@ -200,9 +223,10 @@ class TopGen:
             massigned[tuple(steps)] = lab; ml[lab] = steps
         return tl, ml
 
-def top_case(rnd, tier, cfgkw=None, ntop=None, clash=False, porywrap=False):
-    tg = TopGen(rnd, tier, clash=clash, porywrap=porywrap); src = tg.gen(ntop)
+def top_case(rnd, tier, cfgkw=None, ntop=None, clash=False, porywrap=False, fmt=False, tconsts=False):
+    tg = TopGen(rnd, tier, clash=clash, porywrap=porywrap, fmt=fmt, tconsts=tconsts); src = tg.gen(ntop)
     cfgkw = dict(cfgkw or {})
+    if fmt: cfgkw.update(fontdefault="F1", fonts={"F1": FMT_FONT})
     if porywrap: cfgkw["switches"] = {"V": "ZZ"}
     cfg = base_cfg(**cfgkw)
     return Case(compile_line(cfg, src), src, cfg, {"top": tg})
@@ -317,7 +341,7 @@ def runoff(text, tg):
 def gen_C06(rnd, n, tier):
     out = []
     for _ in range(n):
-        c = top_case(rnd, tier, {"optimize": rnd.random() < 0.5}, ntop=rnd.randint(2, 5), clash=True, porywrap=True)
+        c = top_case(rnd, tier, {"optimize": rnd.random() < 0.5}, ntop=rnd.randint(2, 5), clash=True, porywrap=True, fmt=True)
         out.append(c)
     return out
 
@@ -360,6 +384,16 @@ def oracle_C06(case, res):
     for owner, name, content, typ in tg.textcmds:
         if name not in ref: continue          # command sits in code that is legitimately absent? never: report
         lab = ref[name]
+        if content is None:
+            # a format() text: its content is whatever the label holds - checked against the layout
+            # rules for the parameters of THIS call; sharing / numbering then work on that content
+            got = texts.get(lab, [])
+            content = "\n".join(c for _, c in got)
+            ftext, mx, ov, nl = tg.fmtcmds[name]
+            if not content.endswith("$"): return "format() text of %s lost its terminator" % name
+            from cases_misc import check_format
+            e = check_format(ftext, mx, ov, nl, FMT_FONT["widths"], content[:-1])
+            if e: return "format() text of %s (maxLineLength %d, cursorOverlapWidth %d, numLines %d): %s" % (name, mx, ov, nl, e)
         key = (content, typ)
         if key in assigned:
             if assigned[key] != lab: return "same text %r has two labels %s / %s" % (key, assigned[key], lab)
@@ -397,7 +431,7 @@ def gen_C08(rnd, n, tier):
         tg = TopGen(rnd, tier)
         # force a mapscripts item: regenerate until there is one
         for _ in range(30):
-            tg = TopGen(rnd, tier); src = tg.gen(rnd.randint(1, 3))
+            tg = TopGen(rnd, tier, tconsts=True); src = tg.gen(rnd.randint(1, 3))
             if any(i[0] == "mapscripts" for i in tg.items): break
         cfg = base_cfg(optimize=rnd.random() < 0.5)
         out.append(Case(compile_line(cfg, src), src, cfg, {"top": tg}))
@@ -448,7 +482,7 @@ def gen_C09(rnd, n, tier):
         srcparts = []; vals = []
         for p in parts:
             if " " in p and rnd.random() < 0.2:
-                k = p.index(" "); srcparts.append('"%s\n     %s"' % (p[:k], p[k + 1:])); vals.append(p)
+                k = p.index(" "); srcparts.append('"%s%s     %s"' % (p[:k], rnd.choice(["\n", "\n", "\r\n"]), p[k + 1:])); vals.append(p)
             else: srcparts.append('"%s"' % p); vals.append(p)
         # Go joins parts with "\n" only when the text so far is non-empty
         value = ""
@@ -456,7 +490,7 @@ def gen_C09(rnd, n, tier):
             if len(value) > 0: value += "\n"
             value += v
         lit = typ + rnd.choice([" ", "\n  ", "  "]).join(srcparts)
-        origin = rnd.choice(["stmt", "inline", "pory", "pory_", "pair", "format", "format"])
+        origin = rnd.choice(["stmt", "inline", "pory", "pory_", "pair", "pair1", "format", "format"])
         cfg = base_cfg(switches={"V": "A"})
         # (format() normalises blanks: only texts that are already single-spaced come out unchanged)
         if origin == "format" and (nparts != 1 or "\\" in parts[0] or srcparts[0] != '"%s"' % parts[0] or parts[0] != " ".join(parts[0].split())): origin = "stmt"
@@ -465,6 +499,11 @@ def gen_C09(rnd, n, tier):
             cfg = base_cfg(switches={"V": "A"}, fontdefault="F1", fonts={"F1": {"maxLineLength": 100000, "numLines": 2, "cursorOverlapWidth": 0, "widths": {"default": 1}}})
             if rnd.random() < 0.5: src = "text T {\n  format(%s)\n}\n" % lit; label = "T"
             else: src = "script S {\n  msgbox(format(%s))\n}\n" % lit; label = "S_Text_0"
+        elif origin == "pair1":
+            # the same content under another string type earlier in the SAME command
+            other = rnd.choice([t for t in ["", "ascii", "braille", "custom"] if t != typ])
+            olit = other + " ".join(srcparts)
+            src = "script S {\n  msgbox2(%s, %s)\n}\n" % (olit, lit); label = "S_Text_1"
         elif origin == "pair":
             # the same content under another string type earlier in the file must not capture this text
             other = rnd.choice([t for t in ["", "ascii", "braille", "custom"] if t != typ])
@@ -489,13 +528,13 @@ def oracle_C09(case, res):
     return None
 
 # ---------------- C10 ----------------
-ARG_ATOMS = ["VAR_A", "7", "-3", "0x1F", "FLAG_X", "+", "|", "TRUE", "var", "if", "*", "=", "0x1f", "0xdeadBEEF", "0xa", "VAR_0x8004", "<=", "[", "]", "{", "}", ":", "!"]
+ARG_ATOMS = ["VAR_A", "7", "-3", "0x1F", "FLAG_X", "+", "|", "TRUE", "var", "if", "*", "=", "0x1f", "0xdeadBEEF", "0xa", "VAR_0x8004", "global", "local", "<=", "[", "]", "{", "}", ":", "!"]
 def gen_arg(rnd, depth=0):
     n = rnd.randint(1, 3); toks = []
     for _ in range(n):
         if depth < 2 and rnd.random() < 0.2:
             inner = gen_arg(rnd, depth + 1); toks += ["("] + inner + [")"]
-        else: toks.append(rnd.choice(ARG_ATOMS[:16]))
+        else: toks.append(rnd.choice(ARG_ATOMS[:18]))
     return toks
 
 F21_SRC = 'script S {\n  mixarg(FOO "a")\n  mixarg("a" ascii"b", 1)\n}\n'
@@ -510,8 +549,8 @@ def gen_C10(rnd, n, tier):
         consts = {}
         pre = ""
         if rnd.random() < 0.3:
-            consts = {"K_ONE": ["1"], "K_SUM": ["BASE", "+", "2"]}
-            pre = "const K_ONE = 1\nconst K_SUM = BASE + 2\n"
+            consts = {"K_ONE": ["1"], "K_SUM": ["BASE", "+", "2"], "K_ALIAS": ["1"], "K_ALIAS2": ["1", "+", "1"]}
+            pre = "const K_ONE = 1\nconst K_SUM = BASE + 2\nconst K_ALIAS = K_ONE\nconst K_ALIAS2 = K_ALIAS + K_ONE\n"
         ntext = 0; texts = []
         for j in range(ncmd):
             name = rnd.choice(["lock", "setvar", "c%d" % j, "giveitem", "end_x", "returnx"])
@@ -812,8 +851,10 @@ class Pory:
     def stmt_item(s, depth):
         r = s.r; x = r.random()
         if depth < 2 and x < 0.3: return s.pory("stmt", depth, s.stmt_item, " ")
-        if x < 0.5:
+        if x < 0.4:
             t = 'msgbox("t%d")' % r.randint(0, 3); return (t, lambda sw, t=t: t)
+        if x < 0.5:
+            t = 'msgbox(format("aaaa aaa aa aaa aa aaa aa aaa aa aaa", "1_latin_rse", 60%s))' % r.choice(["", ", numLines=3", ", numLines=1", ", cursorOverlapWidth=20"]); return (t, lambda sw, t=t: t)
         if x < 0.6:
             w, sl = s.pory("move", depth, s.move_item, " ")
             return ("applymovement(1, moves(a %s b))" % w, lambda sw, sl=sl: (None if sl(sw) is None else "applymovement(1, moves(a %s b))" % sl(sw)))
@@ -830,7 +871,9 @@ class Pory:
         if depth < 2 and r.random() < 0.25: return s.pory("mart", depth, s.mart_item, " ")
         t = r.choice(["ITEM_A", "ITEM_B", "ITEM_NONE", "ITEM_C"]); return (t, lambda sw, t=t: t)
     def text_item(s, depth):
-        t = s.r.choice(['"hello"', 'ascii"abc"', 'format("aa bb cc", "1_latin_rse", 20)', 'braille"x"', 'custom"zz"']); return (t, lambda sw, t=t: t)
+        t = s.r.choice(['"hello"', 'ascii"abc"', 'format("aa bb cc", "1_latin_rse", 20)', 'braille"x"', 'custom"zz"',
+                        'format("aaaa aaa aa aaa aa aaa aa aaa aa aaa", "1_latin_rse", 60)', 'format("aaaa aaa aa aaa aa aaa aa aaa aa aaa", "1_latin_rse", 60, numLines=3)',
+                        'format("aaaa aaa aa aaa aa aaa aa aaa aa aaa", "1_latin_rse", 60, numLines=1, cursorOverlapWidth=20)']); return (t, lambda sw, t=t: t)
     def program(s):
         r = s.r; tops_w = []; tops_s = []
         for _ in range(r.randint(1, 3)):
@@ -886,13 +929,16 @@ def oracle_C12_group(cases, results):
 def gen_C13(rnd, n, tier):
     out = []
     for it in range(n):
-        names = ["K%d" % i for i in range(rnd.randint(1, 4))]
+        pool = ["K%d" % i for i in range(4)]
+        if it % 4 == 1: pool = ["ÉTAGE", "K1", "ñ_k", "K3"]          # names that start with a non-ASCII letter
+        names = pool[:rnd.randint(1, 4)]
         defs = {}; deflines = []
         for i, nme in enumerate(names):
             x = rnd.random()
             if x < 0.4: val = [str(rnd.randint(0, 9))]
             elif x < 0.6: val = ["FLAG_X%d" % i]
-            elif x < 0.8 and i > 0: val = [rnd.choice(names[:i]), "+", "1"]
+            elif x < 0.7 and i > 0: val = [rnd.choice(names[:i]), "+", "1"]
+            elif x < 0.85 and i > 0: val = [rnd.choice(names[:i])]            # a pure alias of an earlier constant
             else: val = ["BASE", "+", "0x1%d" % i]
             deflines.append("const %s = %s" % (nme, " ".join(val)))
             exp = []
@@ -923,7 +969,8 @@ def gen_C13(rnd, n, tier):
             tops.append("mart M2 { ITEM_A K8 ITEM_B }")
         if rnd.random() < 0.5: tops.append("mapscripts MS { T [ %s, %s: L1  %s + 1, 2 { z } ] }" % (u(), u(), u()))
         prog = "\n".join(deflines + tops)
-        expand = lambda s: re.sub(r"\bK\d\b", lambda m: " ".join(defs[m.group(0)]), s)
+        name_re = re.compile(r"(?<![\w])(%s)(?![\w])" % "|".join(re.escape(x) for x in sorted(defs, key=len, reverse=True)))
+        expand = lambda s: name_re.sub(lambda m: " ".join(defs[m.group(0)]), s)
         prog2 = "\n".join(expand(t) for t in tops)
         cfg = base_cfg()
         out.append(Case(compile_line(cfg, prog), prog, cfg, {"role": "const"}, group=it))
@@ -935,6 +982,14 @@ def gen_C13(rnd, n, tier):
         if it % 10 == 0:
             prog4 = "\n".join(deflines + ["const %s = 5" % k, "script S { a }"])
             out.append(Case(compile_line(cfg, prog4), prog4, cfg, {"role": "redef"}, group=(it, "r")))
+        if it % 10 == 5:
+            # a constant defined as itself (or two defined from each other) is legal, is not expanded
+            # any further, never hangs - and cannot be redefined either
+            idc = rnd.choice(["const SELF = SELF", "const PA = PB\nconst PB = PA"]); nm = "SELF" if "SELF" in idc else "PB"
+            prog5 = idc + "\nscript S { setvar(VAR_X, %s) }" % nm
+            out.append(Case(compile_line(cfg, prog5), prog5, cfg, {"role": "selfref", "want": "\tsetvar VAR_X, %s\n" % ("SELF" if nm == "SELF" else "PB")}, group=(it, "s")))
+            prog6 = idc + "\nconst %s = 3\nscript S { setvar(VAR_X, %s) }" % (nm, nm)
+            out.append(Case(compile_line(cfg, prog6), prog6, cfg, {"role": "redef"}, group=(it, "r2")))
     return out
 
 def oracle_C13_group(cases, results):
@@ -951,4 +1006,8 @@ def oracle_C13_group(cases, results):
             return "a constant rewrote a script name, command name, label, movement step or text"
     if "redef" in roles:
         if roles["redef"][1]["kind"] != "PERR": return "redefinition of a constant was accepted"
+    if "selfref" in roles:
+        c, r = roles["selfref"]
+        if r["kind"] != "OK": return "a self-referential constant was rejected or did not terminate: %s %s" % (r["kind"], r.get("msg", ""))
+        if c.meta["want"] not in r["text"]: return "a self-referential constant was expanded to something else: %r" % r["text"][:200]
     return None
